@@ -4,6 +4,7 @@ use crate::c06::{money_lit, rated_key, MoneyLit};
 use crate::common::{close, close_scaled, Cfg, Slot, NT, READ_SEPS, V};
 use crate::engine::{Acc, Ctx, Prop, Verdict, Worker};
 use crate::lines::{Class, Line, NumLit, Tok};
+use crate::vocab::vocab;
 use proptest::prelude::*;
 use serde::{Deserialize, Serialize};
 
@@ -86,7 +87,8 @@ pub struct Case {
     /// additionally evaluate the phrase with X (bit 0) and/or p (bit 1) held in a variable bound on an earlier line
     #[serde(default)]
     pub via: u8,
-    /// order in which the two separators are set on the calculator (odd: thousands first)
+    /// order in which the two separators are set on the calculator (odd: thousands first); 2 and 3: the line is
+    /// evaluated under the language tag tr (the phrases are the same words in every configured language)
     #[serde(default)]
     pub order: u8,
 }
@@ -184,8 +186,9 @@ impl Prop for PctProp {
         let mut cfg = Cfg::seps(dec, thou);
         cfg.order = c.order % 2;
         let line = case_line(c).render(dec, thou);
-        let rendered = format!("[{}] {}", cfg.label(), line);
-        let slot = match w.eval1(&cfg, "en", &line) {
+        let lang = if c.order >= 2 { "tr" } else { "en" };
+        let rendered = format!("[{}{}] {}", cfg.label(), if lang == "tr" { " language tr" } else { "" }, line);
+        let slot = match w.eval1(&cfg, lang, &line) {
             Ok(s) => s,
             Err(e) => return Verdict::fail(e, rendered),
         };
@@ -223,7 +226,7 @@ impl Prop for PctProp {
             let mut c2 = c.clone();
             c2.p.prefix = !c.p.prefix;
             let line2 = case_line(&c2).render(dec, thou);
-            match w.eval1(&cfg, "en", &line2) {
+            match w.eval1(&cfg, lang, &line2) {
                 Ok(s2) => {
                     if !s2.same(&slot) {
                         acc.fail(format!("spelling {:?} gives {} but {:?} gives {}", line, slot.brief(), line2, s2.brief()));
@@ -247,7 +250,7 @@ impl Prop for PctProp {
                 }
                 let line3 = case_line_with(c, xn, pn).render(dec, thou);
                 text.push_str(&line3);
-                match w.eval(&cfg, "en", &text) {
+                match w.eval(&cfg, lang, &text) {
                     Ok(o) => {
                         via_checked = true;
                         let last = o.slots.last().cloned().unwrap_or(Slot::Nothing);
@@ -285,7 +288,7 @@ impl Prop for PctProp {
             Phrase::WhatPct => "A is what % of B",
             Phrase::OfWhat => "A is p% of what",
         };
-        acc.finish(rendered).nt(nt).class(cls).class_if(c.x.code().is_some(), "money").class_if(c.p.prefix, "%p-spelling").class_if(p < 0.0, "negative-percent").class_if(x < 0.0, "negative-amount").class_if(p.fract() != 0.0, "fractional-percent").class_if(via_checked, "operands-also-via-variables")
+        acc.finish(rendered).nt(nt).class(cls).class_if(c.x.code().is_some(), "money").class_if(c.p.prefix, "%p-spelling").class_if(p < 0.0, "negative-percent").class_if(x < 0.0, "negative-amount").class_if(p.fract() != 0.0, "fractional-percent").class_if(via_checked, "operands-also-via-variables").class_if(lang == "tr", "language-tag-tr")
     }
 }
 
@@ -363,11 +366,15 @@ pub fn value_strategy() -> impl Strategy<Value = NumLit> {
 }
 
 pub fn amount_strategy() -> impl Strategy<Value = Amount> {
-    prop_oneof![3 => value_strategy().prop_map(Amount::Plain), 2 => money_lit(rated_key()).prop_map(Amount::Money)]
+    // "money in any currency": also the configured currencies that have no rate in the shipped table (cad, aed, egp ...),
+    // written `<amount> <code>`
+    let unrated: Vec<String> = vocab().all_currency_keys.iter().filter(|k| !vocab().rated.iter().any(|r| r.key == **k)).cloned().collect();
+    let any_code = (crate::c06::amount_strategy(), prop::sample::select(unrated), 1u8..=2, 0u8..5, any::<u32>()).prop_map(|(amount, cur, sp, cp, bits)| MoneyLit { amount, suffix: None, cur, spelling: crate::c06::Spelling::CodeAfter(sp, cp, bits) }.normalise());
+    prop_oneof![3 => value_strategy().prop_map(Amount::Plain), 2 => money_lit(rated_key()).prop_map(Amount::Money), 1 => any_code.prop_map(Amount::Money)]
 }
 
 pub fn case_strategy() -> impl Strategy<Value = Case> {
-    (prop::sample::select(PHRASES.to_vec()), amount_strategy(), value_strategy(), value_strategy(), any::<bool>(), (0u8..=1, 0u8..=1), prop_oneof![3 => Just(0usize), 1 => 1usize..4], prop_oneof![3 => Just(0u8), 2 => 1u8..4], 0u8..2).prop_map(|(phrase, x, bv, p, prefix, op_space, seps, via, order)| {
+    (prop::sample::select(PHRASES.to_vec()), amount_strategy(), value_strategy(), value_strategy(), any::<bool>(), (0u8..=1, 0u8..=1), prop_oneof![3 => Just(0usize), 1 => 1usize..4], prop_oneof![3 => Just(0u8), 2 => 1u8..4], prop_oneof![4 => 0u8..2, 1 => 2u8..4]).prop_map(|(phrase, x, bv, p, prefix, op_space, seps, via, order)| {
         // `A is what % of B`: both plain or both in the same currency; in one case in four exactly one of the two is an
         // amount of money and the other a plain number (the percentage of the two amounts)
         let mixed = via == 3 && phrase == Phrase::WhatPct;
